@@ -809,4 +809,33 @@ theorem err_of_nat (σ : ℚ) (hσ : σ = 1 ∨ σ = -1) (R E : ℕ) (s : ℚ) (
     have e2 : (-1 : ℚ) * (E : ℚ) * s = -((E : ℚ) * s) := by ring
     rw [e1, e2, abs_neg, abs_neg]; simpa using key
 
+
+/-- keeping the top prec+1 limbs of a normalised vector: decomposition and error bound -/
+theorem top_trunc (prec : Nat) (hp : 1 ≤ prec) (d : List Nat) (hl : Limbs d) (hne : d ≠ []) (ht : d.getLast? ≠ some 0) :
+    Limbs (top (prec + 1) d) ∧ top (prec + 1) d ≠ [] ∧ (top (prec + 1) d).getLast? ≠ some 0 ∧
+    (top (prec + 1) d).length = min (prec + 1) d.length ∧
+    val (top (prec + 1) d) * B ^ (d.length - (prec + 1)) ≤ val d ∧
+    (val d - val (top (prec + 1) d) * B ^ (d.length - (prec + 1))) * B ^ (prec - 1) < 4 * val d ∧
+    (B ^ (d.length - prec) ∣ val d → val (top (prec + 1) d) * B ^ (d.length - (prec + 1)) = val d) := by
+  obtain ⟨t1, t2, t3, t4, t5, t6, _⟩ := top_facts (prec + 1) (by omega) d hl hne ht
+  have hpos := val_pos_of_top hne ht
+  have hge := val_ge_of_top d hne ht
+  refine ⟨t1, t2, t3, t4, by rw [t5]; nlinarith, ?_, ?_⟩
+  · have e : val d - val (top (prec + 1) d) * B ^ (d.length - (prec + 1)) = val (d.take (d.length - (prec + 1))) := by
+      rw [t5]; rw [mul_comm]; omega
+    rw [e]
+    rcases Nat.eq_zero_or_pos (d.length - (prec + 1)) with h | h
+    · rw [h] at t6 ⊢; simp at t6 ⊢; omega
+    · have h1 : d.length - 1 = (d.length - (prec + 1)) + (prec - 1) + 1 := by omega
+      rw [h1, pow_add, pow_add, pow_one] at hge
+      have h2 : val (d.take (d.length - (prec + 1))) * B ^ (prec - 1) < B ^ (d.length - (prec + 1)) * B ^ (prec - 1) :=
+        Nat.mul_lt_mul_of_pos_right t6 (Bpow_pos _)
+      have := B_ge_two
+      nlinarith
+  · intro hd
+    have hd' : B ^ (d.length - (prec + 1)) ∣ val d := Dvd.dvd.trans (Nat.pow_dvd_pow B (by omega)) hd
+    have := low_zero_of_dvd t5 t6 hd'
+    rw [t5, this]; ring
+
+
 end Mpir.Mpf
